@@ -1417,12 +1417,17 @@ package apd
 //@   assert before strconv.ParseFloat#1: [text] DecText(bytes(arg0), 0, d.Form, d.Negative, val(d.Coeff), d.Exponent, 71) && arg1 == 64
 //@   forwards strconv.ParseFloat#1
 
+// SetFloat64 (C17, C13): plumbing only - on every path the float is handed to strconv.AppendFloat with format 'E', the
+// shortest precision (-1) and 64 bits, and what is parsed is a text (that it is the text AppendFloat produced is not
+// tracked; floats are not modelled).
 //@ func (*Decimal).SetFloat64
-//@   props C17 C04 C06
+//@   props C17 C04 C06 C13
 //@   exported
 //@   requires writable(d)
 //@   assigns d
 //@   ensures ret0 == d && (ret1 == nil ==> inv(d))
+//@   assert before strconv.AppendFloat#1: [args] arg1 == f && arg2 == 69 && arg3 == -1 && arg4 == 64
+//@   always strconv.AppendFloat#1
 
 //@ func MakeErrDecimal
 //@   props C03
